@@ -537,8 +537,11 @@ def analyse(P):
     if os.path.exists(cache) and os.path.getmtime(cache) >= max(os.path.getmtime(__file__), os.path.getmtime(SPEC),
                                                                  os.path.getmtime(absint.__file__), os.path.getmtime(sx.__file__),
                                                                  os.path.getmtime(os.path.join(os.path.dirname(__file__), "summaries.py"))):
-        with open(cache, "rb") as fh:
-            return pickle.load(fh)
+        try:
+            with open(cache, "rb") as fh:
+                return pickle.load(fh)
+        except Exception:
+            pass            # a cache file that cannot be read is recomputed
     res = explore(P)
     spec = isa()
     out = {"n_paths": len(res["paths"]), "capped": res["capped"], "unsupported": [u[0] for u in res["unsupported"]],
@@ -616,6 +619,9 @@ def analyse(P):
                     e = c.method["rel_expr"]
                     lin = sx.linear(e, ep.doms)
                     g["rel_linear"].append({"expr": sx.show(e), "linear": None if lin is None else {("const" if k is None else k[1]): v for k, v in lin.items()}})
-    with open(cache, "wb") as fh:
+    # several checks of one tree may run side by side: the cache appears whole or not at all
+    tmp = "%s.%d.tmp" % (cache, os.getpid())
+    with open(tmp, "wb") as fh:
         pickle.dump(out, fh)
+    os.replace(tmp, cache)
     return out
